@@ -239,6 +239,17 @@ func sameValue(a, b ssa.Value) bool {
 			}
 		}
 	}
+	// two loads of the same local cell (variables captured by closures live in cells)
+	if ua, ok := a.(*ssa.UnOp); ok && ua.Op == token.MUL {
+		if ub, ok := b.(*ssa.UnOp); ok && ub.Op == token.MUL {
+			if _, isAlloc := ua.X.(*ssa.Alloc); isAlloc && ua.X == ub.X {
+				return true
+			}
+			if _, isFV := ua.X.(*ssa.FreeVar); isFV && ua.X == ub.X {
+				return true
+			}
+		}
+	}
 	fa, ba := loadedField(a)
 	fb, bb := loadedField(b)
 	if fa != nil && fa == fb {
